@@ -861,3 +861,11 @@ Proof.
   intros H l a size e t Hs Hf Ht. unfold replay_w. rewrite Hs, Hf. cbn [Base.bind Z.eqb replay_loop_w].
   rewrite Ht. cbn [EventLog.is_nil Z.eqb]. reflexivity.
 Qed.
+
+(** the hypotheses of [Q_replay_site_zeros_panics] hold for a one-event SHA1 log of PCR0; the three writers of a case *)
+Lemma ex_replay_first_measurement :
+  let e := EventLog.mkEv 0 EventLog.EV_POST_CODE [] (Some (EventLog.mkDg 4 (repeat 17 20))) in
+  EventLog.hash_size 4 = Some 20 /\ EventLog.filter_events 20 0 4 [e] = Ok [e] /\
+  (EventLog.ev_type e =? EventLog.EV_NO_ACTION) = false /\
+  writer_of 0 = W_NIL /\ writer_of 1 = W_SINK /\ writer_of 2 = W_FAILING.
+Proof. vm_compute. repeat split. Qed.
